@@ -15,6 +15,7 @@ import (
 	"io"
 	"math/rand"
 	"net"
+	"net/http"
 	"strings"
 	"testing"
 	"time"
@@ -41,6 +42,32 @@ func (c *c29Conn) RemoteAddr() net.Addr             { return nil }
 func (c *c29Conn) SetDeadline(time.Time) error      { return nil }
 func (c *c29Conn) SetReadDeadline(time.Time) error  { return nil }
 func (c *c29Conn) SetWriteDeadline(time.Time) error { return nil }
+
+// c29RW is a minimal http.ResponseWriter for the HTTP/2 (extended CONNECT) upgrade path.
+type c29RW struct {
+	hdr    http.Header
+	status int
+}
+
+func (w *c29RW) Header() http.Header             { return w.hdr }
+func (w *c29RW) WriteHeader(s int)               { w.status = s }
+func (w *c29RW) Write(p []byte) (int, error)     { return len(p), nil }
+func (w *c29RW) Flush()                          {}
+func (w *c29RW) SetReadDeadline(time.Time) error { return nil }
+func (w *c29RW) SetWriteDeadline(time.Time) error { return nil }
+
+// c29H2BufSize returns the size of the bufio.Reader that Upgrader.upgradeH2 gives to the Conn.
+func c29H2BufSize(t *testing.T) int {
+	rw := &c29RW{hdr: http.Header{}}
+	req := &http.Request{Method: http.MethodConnect, ProtoMajor: 2, Proto: "HTTP/2.0", Host: "example.com",
+		Header: http.Header{":protocol": {"websocket"}, "Sec-Websocket-Version": {"13"}}, Body: io.NopCloser(strings.NewReader(""))}
+	up := &Upgrader{CheckOrigin: func(*http.Request) bool { return true }}
+	c, _, err := up.Upgrade(rw, req, nil)
+	if err != nil || c == nil {
+		t.Fatalf("HTTP/2 upgrade failed: %v", err)
+	}
+	return c.br.Size()
+}
 
 type c29Cfg struct {
 	Server   bool  `json:"server"`
@@ -844,11 +871,11 @@ func c29Emit(w *verifW, i int, cfg c29Cfg, stream []byte, class string) {
 		class+"/"+last, nmsg > 0 || len(obs) > 2 || strings.HasPrefix(class, "mut"))
 }
 
-func c29PickCfg(r *rand.Rand, close1 bool) c29Cfg {
+func c29PickCfg(r *rand.Rand, close1 bool, h2size int) c29Cfg {
 	cfg := c29Cfg{Server: r.Intn(5) > 0, Compress: r.Intn(3) == 0, RBuf: 4096, Close1: close1}
 	switch r.Intn(10) {
 	case 0:
-		cfg.RBuf = 16 // the HTTP/2 extended CONNECT path of upgradeH2
+		cfg.RBuf = h2size // the HTTP/2 extended CONNECT path of upgradeH2 (16 in the unfixed source)
 	case 1:
 		cfg.RBuf = 125
 	case 2:
@@ -876,6 +903,8 @@ func TestVerifC29(t *testing.T) {
 	probe, _ := c29Run(c29Cfg{Server: true, RBuf: 4096}, c29Frame{Fin: true, Op: 8, Masked: true, Payload: []byte{3}, Key: [4]byte{1, 2, 3, 4}}.encode())
 	close1 := !(len(probe) > 0 && probe[len(probe)-1].Err == "EClose")
 	w.Extra["close1_strict"] = close1
+	h2size := c29H2BufSize(t)
+	w.Extra["h2_read_buffer"] = h2size
 
 	srv := c29Cfg{Server: true, RBuf: 4096, Close1: close1}
 	mk := func(fs ...c29Frame) []byte { return c29Encode(fs) }
@@ -901,9 +930,9 @@ func TestVerifC29(t *testing.T) {
 		{srv, mk(c29Frame{Fin: true, Op: 1, Masked: true, Key: k, Payload: []byte{0xff, 0xfe}}), "text-utf8"},
 		{srv, []byte{0x82, 0xff, 0x80, 0, 0, 0, 0, 0, 0, 1, 1, 2, 3, 4}, "len64-msb"},
 		{withC(srv, func(c *c29Cfg) { c.Limit = 100 }), []byte{0x82, 0xff, 0x80, 0, 0, 0, 0, 0, 0, 1, 1, 2, 3, 4}, "len64-msb-limit"},
-		{withC(srv, func(c *c29Cfg) { c.RBuf = 16 }), mk(c29Frame{Fin: true, Op: 9, Masked: true, Key: k, Payload: bytes.Repeat([]byte("a"), 17)}), "h2-ping-17"},
-		{withC(srv, func(c *c29Cfg) { c.RBuf = 16 }), mk(c29Frame{Fin: true, Op: 8, Masked: true, Key: k, Payload: append([]byte{3, 232}, bytes.Repeat([]byte("a"), 15)...)}), "h2-close-reason-15"},
-		{withC(srv, func(c *c29Cfg) { c.RBuf = 16 }), mk(c29Frame{Fin: true, Op: 9, Masked: true, Key: k, Payload: bytes.Repeat([]byte("a"), 16)}), "h2-ping-16"},
+		{withC(srv, func(c *c29Cfg) { c.RBuf = h2size }), mk(c29Frame{Fin: true, Op: 9, Masked: true, Key: k, Payload: bytes.Repeat([]byte("a"), 17)}), "h2-ping-17"},
+		{withC(srv, func(c *c29Cfg) { c.RBuf = h2size }), mk(c29Frame{Fin: true, Op: 8, Masked: true, Key: k, Payload: append([]byte{3, 232}, bytes.Repeat([]byte("a"), 15)...)}), "h2-close-reason-15"},
+		{withC(srv, func(c *c29Cfg) { c.RBuf = h2size }), mk(c29Frame{Fin: true, Op: 9, Masked: true, Key: k, Payload: bytes.Repeat([]byte("a"), 16)}), "h2-ping-16"},
 		{withC(srv, func(c *c29Cfg) { c.Limit = 4 }), mk(c29Frame{Op: 2, Masked: true, Key: k, Payload: []byte("abc")}, c29Frame{Fin: true, Op: 0, Masked: true, Key: k, Payload: []byte("de")}), "limit-fragmented"},
 		{srv, mk(c29Frame{Op: 1, Masked: true, Key: k, Payload: []byte{0xe2, 0x82}}, c29Frame{Fin: true, Op: 0, Masked: true, Key: k, Payload: []byte{0xac}}), "utf8-split"},
 		{srv, mk(c29Frame{Fin: true, Op: 8, Masked: true, Key: k, Payload: []byte{3, 232, 'o', 'k'}}, c29Frame{Fin: true, Op: 2, Masked: true, Key: k, Payload: []byte("x")}), "close-then-data"},
@@ -918,8 +947,14 @@ func TestVerifC29(t *testing.T) {
 			c29Emit(w, i, corpus[i].cfg, corpus[i].stream, "corpus:"+corpus[i].name)
 			continue
 		}
-		cfg := c29PickCfg(r, close1)
-		switch fam := r.Intn(20); {
+		cfg := c29PickCfg(r, close1, h2size)
+		fam := r.Intn(20)
+		if fam >= 7 {
+			// the decompressed-size limit is modelled per message; the implementation may trip it
+			// earlier inside a message, which only shows on truncated or violating streams
+			cfg.DLimit = 0
+		}
+		switch {
 		case fam < 7: // conforming session, possibly ended by a close frame
 			big := r.Intn(40) == 0
 			frames, _ := c29Session(r, cfg, big, cfg.DLimit > 0)
@@ -961,7 +996,10 @@ func TestVerifC29(t *testing.T) {
 				r.Read(f.Key[:])
 				s = append(s, f.encode()...)
 			}
-			c29Emit(w, i, cfg, s[:r.Intn(len(s)+1)+len(s)*r.Intn(2)/1*0], "frames")
+			if r.Intn(3) == 0 {
+				s = s[:r.Intn(len(s)+1)]
+			}
+			c29Emit(w, i, cfg, s, "frames")
 		default: // raw random bytes
 			cfg.Compress = false
 			cfg.DLimit = 0
